@@ -316,6 +316,77 @@ def main(tier=None):
                 ck.violation(('leak', 'request retirement', how + ':' + ','.join(x for x in ('malloc', 'types', 'comms', 'infos', 'files', 'reqs') if L.get(x) != '0')), c.text(),
                              '%s: rank %d: after the last close: %s open=%s' % (c.name, k, {x: L.get(x) for x in ('malloc', 'types', 'comms', 'infos', 'files', 'reqs')}, r.r(k, nfo).get('n'))); break
     ck.cov['request_retirement_cases'] = len(ret)
+    # ---- the fault programs of C11 run to completion with one injected I/O failure each: whatever failed, once every file is closed
+    # (every program closes its files) the library holds nothing
+    import checks.c11 as c11
+    fnps = (1, 2, 3) if thorough else (1, 2)
+    ff = [(p, np_, c11.mkcase(p, np_, ledger=True)) for p in c11.PROGRAMS for np_ in fnps]
+    fres0 = runner.run_cases(b['vx'], [x[2] for x in ff], batch=8)
+    fl = []
+    for (p, np_, c), r in zip(ff, fres0):
+        ck.cov['evaluations'] += 1; trans += 1
+        if r.status != 'ok': continue          # judged by C11
+        im = c11.inj_map(r, np_)
+        fl.append((p, np_, None, 0, c, r))
+        for k in range(np_):
+            for pos in range(1, int(r.end[k].get('inj', 0)) + 1):
+                if not any(a <= pos <= bb for a, bb, ln, op in im[k]): continue
+                for cl in (('MPI_ERR_NO_SPACE', 'MPI_ERR_IO') if thorough else ('MPI_ERR_NO_SPACE',)):
+                    fl.append((p, np_, k, pos, c11.mkcase(p, np_, (k, pos, c11.CLASSES[cl]), '-led-r%d-p%d-%s' % (k, pos, cl), ledger=True), None))
+    todo = [x for x in fl if x[5] is None]
+    fres = iter(runner.run_cases(b['vx'], [x[4] for x in todo], batch=40))
+    nfault = 0
+    for (p, np_, k, pos, c, r0) in fl:
+        r = r0 if r0 is not None else next(fres)
+        if r0 is None: ck.cov['evaluations'] += 1; trans += 1; nfault += 1
+        if r.status != 'ok': continue          # hangs and crashes under faults are C11's verdicts
+        for kk in r.ranks:
+            L = next((o2 for ln2, o2 in sorted(r.ranks[kk].items(), reverse=True) if o2.get('op') == 'ledger'), None)
+            if L is None or L.get('nopen') != '0': continue
+            badk = [x for x in ('malloc', 'types', 'comms', 'infos', 'files', 'reqs') if L.get(x) not in (None, '0')]
+            ck.outcomes.add(('after-fault', bool(badk)))
+            if badk:
+                where = r.end.get(k, {}).get('where') if k is not None else 'no fault'
+                ck.violation(('leak', 'after an I/O failure' if k is not None else 'fault-free program', '%s:%s' % (where, ','.join(badk))), c.text(),
+                             '%s: rank %d holds %s after the last close (%s)' % (c.name, kk, {x: L.get(x) for x in badk}, 'failure injected into %s on rank %d, injectable call %d' % (where, k, pos) if k is not None else 'no fault')); break
+    ck.cov['fault_program_runs'] = nfault
+    # ---- POSIX descriptors: cycles of create / reopen / close of files with and without variables (a variable-less file is trimmed through a
+    # descriptor of the root's own at close), read-only and writable, while another file stays open: every process holds as many
+    # descriptors afterwards as before (both counts taken after a warm-up cycle in the same process)
+    fdc = []
+    for np_ in (1, 2, 3) if thorough else (1, 2):
+        for fmt in (1, 5):
+            c = Case('C17-fds-np%d-f%d' % (np_, fmt), np_)
+            def cycle(c, k):
+                for withvar in (1, 0):
+                    pth = 'fd%d_%d.nc' % (k, withvar)
+                    c.op('*', 'create', f=1, path=pth, fmt=fmt); c.op('*', 'def_dim', f=1, name='x', len=3); c.op('*', 'put_att', f=1, v=-1, name='a', xtype='int', n=1, vals=[k])
+                    if withvar: c.op('*', 'def_var', f=1, name='v', xtype='int', dims=[0])
+                    c.op('*', 'enddef', f=1); c.op('*', 'close', f=1)
+                    c.op('*', 'open', f=1, path=pth, write=1); c.op('*', 'redef', f=1); c.op('*', 'put_att', f=1, v=-1, name='b', xtype='int', n=1, vals=[k]); c.op('*', 'enddef', f=1); c.op('*', 'close', f=1)
+                    c.op('*', 'open', f=1, path=pth, write=0); c.op('*', 'close', f=1)
+                    c.op('*', 'create', f=1, path=pth, fmt=fmt); c.op('*', 'abort', f=1)
+            c.op('*', 'create', f=0, path='keep.nc', fmt=fmt); c.op('*', 'def_dim', f=0, name='x', len=2); c.op('*', 'enddef', f=0)
+            cycle(c, 0)
+            l0 = c.op('*', 'fdcount')
+            for k in (1, 2, 3): cycle(c, k)
+            l1 = c.op('*', 'fdcount')
+            c.op('*', 'close', f=0)
+            led = c.op('*', 'ledger')
+            fdc.append((c, l0, l1, led))
+    for (c, l0, l1, led), r in zip(fdc, runner.run_cases(b['vx'], [x[0] for x in fdc], batch=4)):
+        ck.cov['evaluations'] += 1; trans += 1
+        if r.status != 'ok':
+            from engine.script import first_frame
+            ck.violation((r.status, 'descriptor cycles', first_frame(r.detail)), c.text(), c.name + ': ' + r.detail[:500]); continue
+        for k in r.ranks:
+            bad = [(ln, o.get('op'), o.rc) for ln, o in r.ranks[k].items() if o.rc != 0]
+            if bad: ck.violation(('rc', 'descriptor cycles', 'failing op'), c.text(), '%s: rank %d: %s' % (c.name, k, bad[:3])); break
+            n0, n1 = int(r.r(k, l0).get('n', -1)), int(r.r(k, l1).get('n', -2))
+            ck.outcomes.add(('fds', n1 - n0))
+            if n1 != n0:
+                ck.violation(('leak', 'file descriptors', 'create/open/close cycles'), c.text(), '%s: rank %d holds %d open descriptors after three more cycles of create / open / close, %d before' % (c.name, k, n1, n0)); break
+    ck.cov['descriptor_cycle_cases'] = len(fdc)
     # ---- opens that fail inside the driver (valid signature, header broken further down) release everything they took
     import checks.c04 as c04, checks.c20 as c20
     from engine import cdf
@@ -355,7 +426,7 @@ def main(tier=None):
     ck.cov.update(states=states, transitions=trans, traces_validated_against_impl=trans, max_depth=maxd, completed_depth=completed, distinct_nontrivial=states,
                   rule='BFS over {create/open of 3 paths (+ non-netCDF file, missing file, NC_NOCLOBBER), 10 per-file ops incl. close/abort on every id ever returned and on -1, 1023, 1024, 10^6}; '
                        'state = (open id table with per-file reference model, files on disk); after every transition each open file is swept against its own model, all files are closed and the '
-                       'malloc/MPI-object ledger must be zero; plus the NC_MAX_NFILES boundary case; plus every way of leaving a file (close, abort, abort after redef, from independent mode, close / abort of a new file still in its first define mode) with iput / iget / bput / iput_varn / converting requests still pending on 1-3 processes: NC_EPENDING, id invalid afterwards, ledger zero; plus every way a request leaves the queue (wait / cancel by id, by ALL, by kind; refused at posting for lack of buffer space or bad coordinates) x requests owning MPI objects (non-contiguous buffer type of a read, true imap, conversion, buffered) in collective and independent mode: nothing pending, close succeeds, ledger zero; plus opens of files with a valid signature and a header broken further down (9 grammar violations, 3 truncations, 2 formats) while another file is open: the other file stays usable and the ledger returns to zero')
+                       'malloc/MPI-object ledger must be zero; plus the NC_MAX_NFILES boundary case; plus every way of leaving a file (close, abort, abort after redef, from independent mode, close / abort of a new file still in its first define mode) with iput / iget / bput / iput_varn / converting requests still pending on 1-3 processes: NC_EPENDING, id invalid afterwards, ledger zero; plus every way a request leaves the queue (wait / cancel by id, by ALL, by kind; refused at posting for lack of buffer space or bad coordinates) x requests owning MPI objects (non-contiguous buffer type of a read, true imap, conversion, buffered) in collective and independent mode: nothing pending, close succeeds, ledger zero; plus the fault programs of C11 (every write and read path, header and record-count I/O, redefinition, fill, open) with one I/O failure injected at every injectable call of every process: after the program has closed its files the ledger is zero; plus cycles of create / reopen / abort / close of files with and without variables while another file is open: the number of open POSIX descriptors of every process is the same before and after; plus opens of files with a valid signature and a header broken further down (9 grammar violations, 3 truncations, 2 formats) while another file is open: the other file stays usable and the ledger returns to zero')
     ck.assumptions += ['depth bound %d, np=1' % maxdepth]
     runner.cleanup()
     return ck.finish(min_eval=200, min_outcomes=15)
